@@ -4,6 +4,7 @@
 #include <plibsys.h>
 #include <sys/mman.h>
 #include "vtrace.h"
+#include "galloc.h"
 /* seeds from 1000: content made of extreme words (all ones, zero, alternating) - the same classes as the oracle's sbyte() */
 static unsigned char sbyte (size_t i, unsigned seed) {
 	static const unsigned char w[4] = { 0x01, 0x00, 0x00, 0x80 };
@@ -20,6 +21,7 @@ int main (int argc, char **argv) {
 	in = fopen (argv[1], "r"); if (!in) return 2;
 	vt_open (argv[2]);
 	p_libsys_init (); p_libsys_shutdown (); p_libsys_init ();      /* the library is used after a shutdown / re-initialisation cycle */
+	if (!ga_install ()) return 2;      /* fresh memory is garbage, released memory is overwritten (galloc.h) */
 	while (fgets (line, sizeof line, in)) {
 		a = b = c = d = 0;
 		if (sscanf (line, "%31s %ld %ld %ld %ld", op, &a, &b, &c, &d) < 1) continue;
@@ -56,6 +58,7 @@ int main (int argc, char **argv) {
 		else vt_die ("bad op");
 	}
 	if (h) p_crypto_hash_free (h);
+	p_mem_restore_vtable ();
 	p_libsys_shutdown ();
 	vt_close ();
 	return 0;
